@@ -4,6 +4,8 @@
 //! `VIOLATION property=<id> replay=<path>` is printed), 2 = harness error.
 
 mod batch;
+mod cli;
+mod cli_cli;
 mod gen;
 mod pma;
 mod rng;
@@ -50,6 +52,7 @@ fn main() {
         "stream" => stream_cli::cli(&args[2..]),
         "threads" => threads_cli::cli_threads(&args[2..]),
         "lockstep" => threads_cli::cli_lockstep(&args[2..]),
+        "cli" => cli_cli::cli(&args[2..]),
         "replay" => {
             let path = args.get(2).unwrap_or_else(|| harness_error("replay: missing path"));
             let txt = std::fs::read_to_string(path)
@@ -60,6 +63,7 @@ fn main() {
             let code = match doc["engine"].as_str() {
                 Some("stream") => stream_cli::replay(&doc),
                 Some("threads") | Some("lockstep") => threads_cli::replay(&doc),
+                Some("cli") => cli_cli::replay(&doc, &args[3..]),
                 other => harness_error(&format!("replay: unknown engine {other:?}")),
             };
             if code == 1 {
